@@ -1,11 +1,12 @@
-// C03 harness: crash injection.  A child process (this same binary, VH_CHILD set) runs a seeded
-// workload of tagged batches on a disk-backed scorch index, streaming every hook event and its
-// own acknowledgement notes to the parent; its controller kills the process (os.Exit) at the
-// n-th occurrence of a chosen hook point.  The parent then reopens the directory in further
-// child sessions (observe, write more, crash again or close), and hands the whole multi-session
-// event stream to the Coq persistence model (Scorch/Disk.v): every event must be accepted, what
-// each reopen shows must be what the model recovers — a whole-batch prefix containing every
-// acknowledged batch.
+// Session harness for the disk-backed scorch properties (one binary, -mode selects the property):
+//   c03  crash injection: a child process is killed (os.Exit) at the n-th occurrence of a hook point
+//   c13  rollback: clean sessions, then Rollback to one of the listed rollback points, reopen, write on
+//   c14  online backup: CopyTo runs while the index is written, merged and purged; the copy is opened
+//   c12  file life-cycle: a sampler lists the directory during the run, at quiescence and checks
+//        open file descriptors after Close; a held reader's files are checked for existence
+// In every mode a child process (this same binary, VH_CHILD set) runs the workload on a real index
+// and streams every hook event plus its own notes to the parent; the multi-session stream goes to
+// the Coq persistence model (Scorch/Disk.v), which must accept it event by event.
 package main
 
 import (
@@ -16,12 +17,14 @@ import (
 	"os/exec"
 	"path/filepath"
 	"sort"
+	"strconv"
 	"strings"
 	"sync"
 	"time"
 
 	"github.com/blevesearch/bleve/v2"
 	"github.com/blevesearch/bleve/v2/index/scorch"
+	segment "github.com/blevesearch/scorch_segment_api/v2"
 
 	cf "verifharness/internal/coqfmt"
 	"verifharness/internal/strace"
@@ -35,27 +38,38 @@ type Crash struct {
 	Occ   int    `json:"occ"`
 }
 
+type Action struct {
+	Kind string  `json:"kind"` // batch | forcemerge | sleep | copy | hold | settle
+	Ops  []sw.Op `json:"ops,omitempty"`
+	US   int     `json:"us,omitempty"`
+	Dest string  `json:"dest,omitempty"`
+}
+
 type Session struct {
-	Batches    [][]sw.Op `json:"batches"`
-	ForceMerge []int     `json:"force_merge,omitempty"` // after these batch indices
-	PauseUS    int       `json:"pause_us,omitempty"`
-	Crash      *Crash    `json:"crash,omitempty"` // nil = clean Close at the end
-	Garble     bool      `json:"garble,omitempty"` // after this session: damage every segment file no committed snapshot names
+	Actions []Action `json:"actions"`
+	Crash   *Crash   `json:"crash,omitempty"`   // nil = clean Close at the end
+	Garble  bool     `json:"garble,omitempty"`  // afterwards: damage every segment file no committed snapshot names
+	Sampler bool     `json:"sampler,omitempty"` // list the directory every few ms during the session
+	FdCheck bool     `json:"fd_check,omitempty"`
 }
 
 type In struct {
+	Mode     string    `json:"mode"`
 	Layout   sw.Layout `json:"layout"`
 	NIDs     int       `json:"nids"`
 	Sessions []Session `json:"sessions"`
+	Rollback int       `json:"rollback,omitempty"` // c13: after session index Rollback-1, roll back to point #RollbackPick
+	Pick     int       `json:"pick,omitempty"`
 }
 
 type childSpec struct {
-	Path    string    `json:"path"`
-	Layout  sw.Layout `json:"layout"`
-	NIDs    int       `json:"nids"`
-	Session Session   `json:"session"`
-	TagBase int64     `json:"tag_base"`
-	First   bool      `json:"first"`
+	Path        string    `json:"path"`
+	Layout      sw.Layout `json:"layout"`
+	NIDs        int       `json:"nids"`
+	Session     Session   `json:"session"`
+	TagBase     int64     `json:"tag_base"`
+	First       bool      `json:"first"`
+	ObserveOnly bool      `json:"observe_only,omitempty"`
 }
 
 var points = []string{"introduce", "merge_finish", "persist_intro", "merge_start", "persist_pick", "segfile_written",
@@ -63,56 +77,137 @@ var points = []string{"introduce", "merge_finish", "persist_intro", "merge_start
 	"persist_release_waiters", "memmerge_written", "memmerge_introduced", "filemerge_written", "filemerge_introduced",
 	"purge_bolt_begin", "purge_bolt_committed", "zap_remove", "batch_send", "batch_applied", "batch_persisted"}
 
-func genBatches(r *vrand.R, nids int, nb int, ver *int64) [][]sw.Op {
-	var bs [][]sw.Op
-	for i := 0; i < nb; i++ {
-		var ops []sw.Op
-		for j := r.Range(1, 4); j > 0; j-- {
-			*ver++
-			if r.Chance(3, 4) {
-				ops = append(ops, sw.Op{Kind: "index", ID: r.Intn(nids), Ver: *ver})
-			} else {
-				ops = append(ops, sw.Op{Kind: "delete", ID: r.Intn(nids)})
-			}
+func genOps(r *vrand.R, nids int, ver *int64) []sw.Op {
+	var ops []sw.Op
+	for j := r.Range(1, 4); j > 0; j-- {
+		*ver++
+		if r.Chance(3, 4) {
+			ops = append(ops, sw.Op{Kind: "index", ID: r.Intn(nids), Ver: *ver})
+		} else {
+			ops = append(ops, sw.Op{Kind: "delete", ID: r.Intn(nids)})
 		}
-		bs = append(bs, ops)
 	}
-	return bs
+	return ops
+}
+
+func genActions(r *vrand.R, nids, nb int, ver *int64, pause []int, fmChance int) []Action {
+	var as []Action
+	for i := 0; i < nb; i++ {
+		as = append(as, Action{Kind: "batch", Ops: genOps(r, nids, ver)})
+		if fmChance > 0 && r.Chance(1, fmChance) {
+			as = append(as, Action{Kind: "forcemerge"})
+		}
+		if p := vrand.Pick(r, pause); p > 0 {
+			as = append(as, Action{Kind: "sleep", US: p})
+		}
+	}
+	return as
 }
 
 func gen(f vh.Flags, r *vrand.R, emit func(In)) {
-	n := f.N(44, 1500)
-	for k := 0; k < n; k++ {
-		nids := r.Range(3, 6)
-		var ver int64
-		in := In{NIDs: nids, Layout: sw.Layout{Config: "scorch-disk", Opts: r.Intn(5), Unsafe: r.Chance(1, 3)}}
-		if r.Chance(1, 4) {
-			in.Layout.Keep = r.Range(1, 3)
-		}
-		pt := points[k%len(points)] // every point is hit on every run of the quick tier
-		occ := 1
-		switch r.Intn(3) {
-		case 1:
-			occ = r.Range(2, 4)
-		case 2:
-			occ = r.Range(3, 12)
-		}
-		s1 := Session{Batches: genBatches(r, nids, r.Range(4, 12), &ver), PauseUS: vrand.Pick(r, []int{0, 200, 2000}), Crash: &Crash{pt, occ}, Garble: r.Chance(1, 3)}
-		for i := range s1.Batches {
+	mode := f.Mode
+	if mode == "" {
+		mode = "c03"
+	}
+	switch mode {
+	case "c03":
+		n := f.N(44, 1500)
+		for k := 0; k < n; k++ {
+			nids := r.Range(3, 6)
+			var ver int64
+			in := In{Mode: mode, NIDs: nids, Layout: sw.Layout{Config: "scorch-disk", Opts: r.Intn(5), Unsafe: r.Chance(1, 3)}}
 			if r.Chance(1, 4) {
-				s1.ForceMerge = append(s1.ForceMerge, i)
+				in.Layout.Keep = r.Range(1, 3)
 			}
+			pt := points[k%len(points)] // every point is used on every quick run
+			occ := 1
+			switch r.Intn(3) {
+			case 1:
+				occ = r.Range(2, 4)
+			case 2:
+				occ = r.Range(3, 12)
+			}
+			s1 := Session{Actions: genActions(r, nids, r.Range(4, 12), &ver, []int{0, 200, 2000}, 4), Crash: &Crash{pt, occ}, Garble: r.Chance(1, 3)}
+			s1.Actions = append(s1.Actions, Action{Kind: "sleep", US: 15000})
+			s2 := Session{Actions: genActions(r, nids, r.Range(2, 6), &ver, []int{200}, 0)}
+			if r.Chance(1, 2) {
+				s2.Crash = &Crash{vrand.Pick(r, points), r.Range(1, 5)}
+			}
+			in.Sessions = []Session{s1, s2, {}}
+			emit(in)
 		}
-		s2 := Session{Batches: genBatches(r, nids, r.Range(2, 6), &ver), PauseUS: 200}
-		if r.Chance(1, 2) {
-			s2.Crash = &Crash{vrand.Pick(r, points), r.Range(1, 5)}
+	case "c13":
+		n := f.N(16, 500)
+		for k := 0; k < n; k++ {
+			nids := r.Range(3, 6)
+			var ver int64
+			in := In{Mode: mode, NIDs: nids, Layout: sw.Layout{Config: "scorch-disk", Opts: r.Intn(5), Keep: r.Range(1, 5)}}
+			// spaced batches so that the retained rollback points really differ
+			s1 := Session{Actions: genActions(r, nids, r.Range(5, 12), &ver, []int{3000, 8000, 20000}, 5)}
+			s1.Actions = append(s1.Actions, Action{Kind: "settle"})
+			s2 := Session{Actions: genActions(r, nids, r.Range(1, 4), &ver, []int{500}, 0)}
+			in.Sessions = []Session{s1, s2, {}}
+			in.Rollback = 1
+			in.Pick = r.Intn(8)
+			emit(in)
 		}
-		in.Sessions = []Session{s1, s2, {}}
-		emit(in)
+	case "c14":
+		n := f.N(14, 400)
+		for k := 0; k < n; k++ {
+			nids := r.Range(3, 6)
+			var ver int64
+			in := In{Mode: mode, NIDs: nids, Layout: sw.Layout{Config: "scorch-disk", Opts: r.Intn(5), Unsafe: r.Chance(1, 3), Keep: r.Range(0, 2)}}
+			as := genActions(r, nids, r.Range(6, 16), &ver, []int{0, 300, 3000}, 4)
+			// copies started at random positions of the workload (they run concurrently with what follows)
+			nc := r.Range(1, 3)
+			for c := 0; c < nc; c++ {
+				pos := r.Intn(len(as) + 1)
+				as = append(as[:pos], append([]Action{{Kind: "copy", Dest: fmt.Sprintf("copy%d", c)}}, as[pos:]...)...)
+			}
+			as = append(as, Action{Kind: "sleep", US: 10000})
+			in.Sessions = []Session{{Actions: as}, {}}
+			emit(in)
+		}
+	case "c12":
+		n := f.N(12, 400)
+		for k := 0; k < n; k++ {
+			nids := r.Range(3, 6)
+			var ver int64
+			in := In{Mode: mode, NIDs: nids, Layout: sw.Layout{Config: "scorch-disk", Opts: r.Intn(5), Unsafe: r.Chance(1, 2), Keep: r.Range(0, 3)}}
+			as := genActions(r, nids, r.Range(8, 24), &ver, []int{0, 200, 1500}, 3)
+			for c := r.Range(0, 2); c > 0; c-- {
+				pos := r.Intn(len(as) + 1)
+				as = append(as[:pos], append([]Action{{Kind: "hold", US: r.Range(2000, 30000)}}, as[pos:]...)...)
+			}
+			if r.Chance(1, 2) {
+				pos := r.Intn(len(as) + 1)
+				as = append(as[:pos], append([]Action{{Kind: "copy", Dest: "copy0"}}, as[pos:]...)...)
+			}
+			as = append(as, Action{Kind: "settle"})
+			in.Sessions = []Session{{Actions: as, Sampler: true, FdCheck: true}, {}}
+			emit(in)
+		}
 	}
 }
 
 // ---------------------------------------------------------------- child
+
+func zapIDs(storeDir string) []uint64 {
+	ents, err := os.ReadDir(storeDir)
+	if err != nil {
+		return nil
+	}
+	var ids []uint64
+	for _, e := range ents {
+		if filepath.Ext(e.Name()) == ".zap" {
+			if id, err := strconv.ParseUint(strings.TrimSuffix(e.Name(), ".zap"), 16, 64); err == nil {
+				ids = append(ids, id)
+			}
+		}
+	}
+	sort.Slice(ids, func(i, j int) bool { return ids[i] < ids[j] })
+	return ids
+}
 
 func childMain(specJSON string) {
 	var spec childSpec
@@ -122,11 +217,13 @@ func childMain(specJSON string) {
 	}
 	out := bufio.NewWriter(os.Stdout)
 	var mu sync.Mutex
+	lastEvent := time.Now()
 	emit := func(ev *scorch.VerifEvent) {
 		b, _ := json.Marshal(ev)
 		out.Write(b)
 		out.WriteByte('\n')
 		out.Flush()
+		lastEvent = time.Now()
 	}
 	armed := false
 	mappingPersisted := make(chan struct{})
@@ -170,10 +267,11 @@ func childMain(specJSON string) {
 		fmt.Fprintln(os.Stderr, "child: open failed:", err)
 		os.Exit(4)
 	}
+	adv, _ := idx.Advanced()
+	sc := adv.(*scorch.Scorch)
+	storeDir := filepath.Join(spec.Path, "store")
 	if !spec.First {
-		adv, _ := idx.Advanced()
-		sc := adv.(*scorch.Scorch)
-		eps, _ := sc.RootBoltSnapshotEpochs() // newest first
+		eps, _ := sc.RootBoltSnapshotEpochs()
 		var cur uint64
 		for _, e := range eps {
 			if e > cur {
@@ -187,6 +285,22 @@ func childMain(specJSON string) {
 			os.Exit(5)
 		}
 		note(sw.ObserveNote(vs))
+		// the reopened index must also answer searches and counts consistently with Document()
+		cnt, _ := idx.DocCount()
+		live := 0
+		for _, v := range vs {
+			if v != nil {
+				live++
+			}
+		}
+		if int(cnt) != live {
+			fmt.Fprintf(os.Stderr, "child: after reopen DocCount=%d but %d documents are retrievable\n", cnt, live)
+			os.Exit(10)
+		}
+		if spec.ObserveOnly {
+			idx.Close()
+			os.Exit(0)
+		}
 	}
 	if spec.First {
 		// a crash before the mapping written by bleve.New has been persisted is outside the
@@ -201,46 +315,147 @@ func childMain(specJSON string) {
 	mu.Lock()
 	armed = true
 	mu.Unlock()
+
+	stopSampler := make(chan struct{})
+	var samplerWG sync.WaitGroup
+	if spec.Session.Sampler {
+		samplerWG.Add(1)
+		go func() {
+			defer samplerWG.Done()
+			for {
+				select {
+				case <-stopSampler:
+					return
+				case <-time.After(1500 * time.Microsecond):
+				}
+				note(sw.Note("dir_begin"))
+				ids := zapIDs(storeDir)
+				note(sw.Note("dir_end", ids...))
+			}
+		}()
+	}
+
 	tg := sw.NewTagger()
 	tg.Seq = spec.TagBase
-	fm := map[int]bool{}
-	for _, i := range spec.Session.ForceMerge {
-		fm[i] = true
-	}
-	for i, ops := range spec.Session.Batches {
-		b, seq, err := tg.Build(idx, ops, true)
-		if err != nil {
-			fmt.Fprintln(os.Stderr, "child: build:", err)
-			os.Exit(6)
-		}
-		if spec.Layout.Unsafe {
-			s := uint64(seq)
-			b.SetPersistedCallback(func(err error) {
-				if err == nil {
-					note(sw.Note("ack", s))
-				}
-			})
-		}
-		if err := idx.Batch(b); err != nil {
-			fmt.Fprintln(os.Stderr, "child: batch:", err)
-			os.Exit(7)
-		}
-		if !spec.Layout.Unsafe {
-			note(sw.Note("ack", uint64(seq)))
-		}
-		if fm[i] {
+	var bg sync.WaitGroup
+	for _, a := range spec.Session.Actions {
+		switch a.Kind {
+		case "batch":
+			b, seq, err := tg.Build(idx, a.Ops, true)
+			if err != nil {
+				fmt.Fprintln(os.Stderr, "child: build:", err)
+				os.Exit(6)
+			}
+			if spec.Layout.Unsafe {
+				s := uint64(seq)
+				b.SetPersistedCallback(func(err error) {
+					if err == nil {
+						note(sw.Note("ack", s))
+					}
+				})
+			}
+			if err := idx.Batch(b); err != nil {
+				fmt.Fprintln(os.Stderr, "child: batch:", err)
+				os.Exit(7)
+			}
+			if !spec.Layout.Unsafe {
+				note(sw.Note("ack", uint64(seq)))
+			}
+		case "forcemerge":
 			sw.ForceMerge(idx)
-		}
-		if spec.Session.PauseUS > 0 {
-			time.Sleep(time.Duration(spec.Session.PauseUS) * time.Microsecond)
+		case "sleep":
+			time.Sleep(time.Duration(a.US) * time.Microsecond)
+		case "copy":
+			bg.Wait() // one copy at a time (so copy_start events and destinations pair up in order)
+			bg.Add(1)
+			dest := filepath.Join(filepath.Dir(spec.Path), a.Dest)
+			go func() {
+				defer bg.Done()
+				if err := idx.(bleve.IndexCopyable).CopyTo(bleve.FileSystemDirectory(dest)); err != nil {
+					fmt.Fprintln(os.Stderr, "child: CopyTo:", err)
+					os.Exit(11)
+				}
+			}()
+		case "hold":
+			// hold an index reader for a while and check that the files of its snapshot stay on disk
+			bg.Add(1)
+			us := a.US
+			go func() {
+				defer bg.Done()
+				r, err := sc.Reader()
+				if err != nil {
+					return
+				}
+				defer r.Close()
+				snap, ok := r.(*scorch.IndexSnapshot)
+				if !ok {
+					return
+				}
+				var files []string
+				for _, ss := range snap.Segments() {
+					if ps, ok := ss.Segment().(segment.PersistedSegment); ok {
+						files = append(files, ps.Path())
+					}
+				}
+				deadline := time.Now().Add(time.Duration(us) * time.Microsecond)
+				for time.Now().Before(deadline) {
+					for _, f := range files {
+						if _, err := os.Stat(f); err != nil {
+							id, _ := strconv.ParseUint(strings.TrimSuffix(filepath.Base(f), ".zap"), 16, 64)
+							note(sw.Note("reader_file_missing", id))
+							return
+						}
+					}
+					time.Sleep(300 * time.Microsecond)
+				}
+			}()
+		case "settle":
+			// wait until background work has gone quiet, then list the directory
+			bg.Wait()
+			for i := 0; i < 400; i++ {
+				mu.Lock()
+				idle := time.Since(lastEvent)
+				mu.Unlock()
+				if idle > 250*time.Millisecond {
+					break
+				}
+				time.Sleep(20 * time.Millisecond)
+			}
+			if spec.Session.Sampler {
+				close(stopSampler)
+				samplerWG.Wait()
+				stopSampler = make(chan struct{})
+				eps, _ := sc.RootBoltSnapshotEpochs()
+				sort.Slice(eps, func(i, j int) bool { return eps[i] < eps[j] })
+				note(sw.Note("bolt_epochs", eps...))
+				note(sw.Note("quiescent", zapIDs(storeDir)...))
+			} else {
+				eps, _ := sc.RootBoltSnapshotEpochs()
+				sort.Slice(eps, func(i, j int) bool { return eps[i] < eps[j] })
+				note(sw.Note("bolt_epochs", eps...))
+			}
 		}
 	}
-	if len(spec.Session.Batches) > 0 {
-		time.Sleep(15 * time.Millisecond) // let the persister / merger / purger run a little
+	bg.Wait()
+	select {
+	case <-stopSampler:
+	default:
+		close(stopSampler)
 	}
+	samplerWG.Wait()
 	if err := idx.Close(); err != nil {
 		fmt.Fprintln(os.Stderr, "child: close:", err)
 		os.Exit(8)
+	}
+	if spec.Session.FdCheck {
+		ents, _ := os.ReadDir("/proc/self/fd")
+		open := 0
+		for _, e := range ents {
+			if t, err := os.Readlink("/proc/self/fd/" + e.Name()); err == nil && strings.HasPrefix(t, spec.Path) {
+				open++
+			}
+		}
+		note(sw.Note("fds_open_after_close", uint64(open)))
 	}
 	os.Exit(0)
 }
@@ -272,7 +487,7 @@ func runChild(spec childSpec) (evs []*scorch.VerifEvent, code int, stderr string
 		}
 		close(done)
 	}()
-	timer := time.AfterFunc(60*time.Second, func() { _ = cmd.Process.Kill() })
+	timer := time.AfterFunc(90*time.Second, func() { _ = cmd.Process.Kill() })
 	<-done
 	werr := cmd.Wait()
 	timer.Stop()
@@ -288,7 +503,7 @@ func runChild(spec childSpec) (evs []*scorch.VerifEvent, code int, stderr string
 }
 
 // garble damages every .zap file that no committed bolt snapshot names (truncate, overwrite or
-// leave an empty file): recovery must not depend on them.
+// remove): recovery must not depend on them.
 func garble(storeDir string, r *vrand.R) (int, error) {
 	named, _, err := sw.NamedFiles(storeDir)
 	if err != nil {
@@ -320,8 +535,27 @@ func garble(storeDir string, r *vrand.R) (int, error) {
 	return n, nil
 }
 
+func mirrorTags(tg *sw.Tagger, s Session) {
+	for _, a := range s.Actions {
+		if a.Kind != "batch" {
+			continue
+		}
+		tg.Seq++
+		vers := map[string]int64{}
+		for _, o := range a.Ops {
+			switch o.Kind {
+			case "index":
+				vers[sw.DocName(o.ID)] = o.Ver
+			case "delete":
+				delete(vers, sw.DocName(o.ID))
+			}
+		}
+		tg.Vers[tg.Seq] = vers
+	}
+}
+
 func exec_(in In) vh.Result {
-	dir, err := os.MkdirTemp("", "vh_c03_")
+	dir, err := os.MkdirTemp("", "vh_"+in.Mode+"_")
 	if err != nil {
 		return vh.Result{Direct: &vh.Direct{Kind: "error", Detail: err.Error()}}
 	}
@@ -333,26 +567,39 @@ func exec_(in In) vh.Result {
 	crashes := 0
 	hist := []string{}
 	gr := vrand.New(uint64(len(in.Sessions))*7919 + uint64(in.NIDs))
+	var direct *vh.Direct
+	class := ""
+	var copyEpochs []uint64
+	var copyDests []string
+	rolledBack := false
 	for si, s := range in.Sessions {
 		spec := childSpec{Path: path, Layout: in.Layout, NIDs: in.NIDs, Session: s, TagBase: tagBase, First: si == 0}
-		// mirror the child's tagging
-		for _, ops := range s.Batches {
-			tg.Seq++
-			vers := map[string]int64{}
-			for _, o := range ops {
-				switch o.Kind {
-				case "index":
-					vers[sw.DocName(o.ID)] = o.Ver
-				case "delete":
-					delete(vers, sw.DocName(o.ID))
-				}
-			}
-			tg.Vers[tg.Seq] = vers
-		}
+		mirrorTags(tg, s)
 		tagBase = tg.Seq
 		evs, code, stderr, err := runChild(spec)
 		if err != nil {
 			return vh.Result{Direct: &vh.Direct{Kind: "error", Detail: "child: " + err.Error()}}
+		}
+		for _, e := range evs {
+			switch {
+			case e.Kind == "copy_start":
+				copyEpochs = append(copyEpochs, e.Epoch)
+			case e.Kind == "note" && e.Name == "reader_file_missing":
+				if direct == nil {
+					direct = &vh.Direct{Kind: "reader-held-file-unlinked", Detail: fmt.Sprintf("segment file %012x.zap of a snapshot held by an open index reader was removed from the directory while the reader was open", e.Args[0])}
+					class = "reader-held-file-unlinked"
+				}
+			case e.Kind == "note" && e.Name == "fds_open_after_close":
+				if e.Args[0] > 0 {
+					return vh.Result{Direct: &vh.Direct{Kind: "files-open-after-close", Detail: fmt.Sprintf("%d file descriptors of the index directory are still open after Close returned", e.Args[0])}}
+				}
+				hist = append(hist, "fd-check-clean")
+			}
+		}
+		for _, a := range s.Actions {
+			if a.Kind == "copy" {
+				copyDests = append(copyDests, filepath.Join(dir, a.Dest))
+			}
 		}
 		all = append(all, evs...)
 		switch code {
@@ -364,6 +611,8 @@ func exec_(in In) vh.Result {
 		case 4:
 			return vh.Result{Class: "reopen-failed", Direct: &vh.Direct{Kind: "reopen-failed",
 				Detail: fmt.Sprintf("session %d: the index could not be opened after the previous session ended (%s): %s", si, describePrev(in, si), strings.TrimSpace(stderr))}}
+		case 10:
+			return vh.Result{Direct: &vh.Direct{Kind: "reopen-inconsistent", Detail: fmt.Sprintf("session %d: %s", si, strings.TrimSpace(stderr))}}
 		default:
 			return vh.Result{Direct: &vh.Direct{Kind: "child-failed", Detail: fmt.Sprintf("session %d exit %d: %s", si, code, lastLines(stderr, 12))}}
 		}
@@ -375,9 +624,47 @@ func exec_(in In) vh.Result {
 				hist = append(hist, "garbled-files")
 			}
 		}
+		if in.Rollback == si+1 {
+			pts, err := scorch.RollbackPoints(path + "/store")
+			if err != nil || len(pts) == 0 {
+				return vh.Result{Direct: &vh.Direct{Kind: "no-rollback-points", Detail: fmt.Sprintf("RollbackPoints after a clean close: %v (%d points)", err, len(pts))}}
+			}
+			p := pts[in.Pick%len(pts)]
+			// the point's own identification: the batch tag stored with it
+			if err := scorch.Rollback(path+"/store", p); err != nil {
+				return vh.Result{Direct: &vh.Direct{Kind: "rollback-failed", Detail: err.Error()}}
+			}
+			var eps []uint64
+			var epoch uint64
+			_, beps, _ := sw.NamedFiles(path + "/store")
+			sort.Slice(beps, func(i, j int) bool { return beps[i] < beps[j] })
+			eps = beps
+			if len(eps) > 0 {
+				epoch = eps[len(eps)-1] // after Rollback the newest remaining bucket is the chosen point
+			}
+			all = append(all, sw.Note("rollback", epoch))
+			rolledBack = true
+			hist = append(hist, fmt.Sprintf("rollback:points=%d", min(len(pts), 6)), fmt.Sprintf("rollback:pick=%d", in.Pick%len(pts)))
+		}
 	}
 	// drop the trailing crash marker (nothing is reopened after the last session)
 	all = all[:len(all)-1]
+	// open every online copy as an index of its own and report what it contains
+	for i, dest := range copyDests {
+		if i >= len(copyEpochs) {
+			break
+		}
+		evs, code, stderr, err := runChild(childSpec{Path: dest, Layout: in.Layout, NIDs: in.NIDs, ObserveOnly: true})
+		if err != nil || code != 0 {
+			return vh.Result{Direct: &vh.Direct{Kind: "copy-unusable", Detail: fmt.Sprintf("the online copy #%d could not be opened / read (exit %d, %v): %s", i, code, err, lastLines(stderr, 6))}}
+		}
+		for _, e := range evs {
+			if e.Kind == "note" && e.Name == "observe" {
+				all = append(all, &scorch.VerifEvent{Kind: "note", Name: "copy_dest", Args: append([]uint64{copyEpochs[i]}, e.Args...)})
+				hist = append(hist, "copy-opened")
+			}
+		}
+	}
 	namer := &strace.Namer{DocID: sw.DocNum}
 	terms, stats := sw.DiskTerms(all, namer, tg.VersionOf)
 	for k, v := range stats {
@@ -386,8 +673,19 @@ func exec_(in In) vh.Result {
 		}
 	}
 	sort.Strings(hist)
-	return vh.Result{Term: cf.App("CDisk", cf.List(terms)), Nontrivial: crashes > 0 && stats["commit"] >= 2, Hist: hist,
-		Key: fmt.Sprintf("%v/%d", in.Sessions[0].Crash, len(terms))}
+	nontrivial := false
+	switch in.Mode {
+	case "c03":
+		nontrivial = crashes > 0 && stats["commit"] >= 2
+	case "c13":
+		nontrivial = rolledBack && stats["commit"] >= 3
+	case "c14":
+		nontrivial = len(copyEpochs) > 0 && stats["merge_finish"]+stats["purge"] > 0
+	case "c12":
+		nontrivial = stats["zap_remove"] > 0 && stats["listing"] >= 3
+	}
+	return vh.Result{Term: cf.App("CDisk", cf.List(terms)), Nontrivial: nontrivial, Hist: hist, Direct: direct, Class: class,
+		Key: fmt.Sprintf("%d/%d/%d", len(terms), stats["commit"], stats["merge_finish"])}
 }
 
 func describePrev(in In, si int) string {
@@ -409,20 +707,30 @@ func lastLines(s string, n int) string {
 	return strings.Join(ls, " | ")
 }
 
+var rules = map[string]string{
+	"c03": "three-session runs on a disk-backed scorch index (5 persister/merge option variants, safe and unsafe batches, retention 1-3 or default): session 1 = 4-12 tagged batches with forced merges, killed (os.Exit in a child process) at the n-th occurrence of one of 22 hook points (every point used in every quick run; n = 1, 2-4 or 3-12), optionally followed by damaging every segment file no committed snapshot names; session 2 = reopen, observe, 2-6 more batches, crash again or close; session 3 = reopen, observe. Non-trivial: a crash really happened and at least two snapshots had been committed",
+	"c13": "session 1 = 5-12 spaced, tagged batches with forced merges under numSnapshotsToKeep 1-5, settle, clean close; RollbackPoints is listed and Rollback applied to one point (chosen by seed); session 2 = reopen, observe (must equal the state of that point), write 1-4 batches, close; session 3 = reopen, observe. Non-trivial: at least three snapshots were committed before the rollback",
+	"c14": "6-16 tagged batches with forced merges and pauses; 1-3 CopyTo calls start at random positions and run concurrently with the rest of the workload (persists, merges, purges); every destination is then opened as an index and its contents reported. Non-trivial: a merge or purge happened during the run",
+	"c12": "8-24 tagged batches (safe/unsafe, retention 0-3) with forced merges, held readers and an online copy; a sampler lists the segment files every 1.5 ms (begin/end markers), the directory is listed at quiescence together with the retained snapshot epochs, and /proc/self/fd is checked after Close. Non-trivial: at least one segment file was removed and three listings were taken",
+}
+
 func main() {
 	if sj := os.Getenv("VH_CHILD"); sj != "" {
 		childMain(sj)
 		return
 	}
+	mode := vh.PeekMode()
+	if mode == "" {
+		mode = "c03"
+	}
 	vh.Main(vh.Config{
-		Property:  "C03",
+		Property:  strings.ToUpper(mode),
 		Imports:   []string{"Common.Bytes", "Scorch.Model", "Scorch.Corr", "Scorch.Disk", "Scorch.DiskCorr"},
 		CaseType:  "DiskCorr.dcase",
 		CheckFn:   "DiskCorr.dcheck",
 		ExplainFn: "DiskCorr.dexplain",
-		Rule: "three-session runs on a disk-backed scorch index (5 persister/merge option variants, safe and unsafe batches, retention 1-3 or default): session 1 = 4-12 tagged batches with forced merges, killed (os.Exit in a child process) at the n-th occurrence of one of 22 hook points (every point used in every quick run; n = 1, 2-4 or 3-12), optionally followed by damaging every segment file no committed snapshot names; " +
-			"session 2 = reopen, observe, 2-6 more batches, crash again or close; session 3 = reopen, observe. The whole event stream goes to the Coq persistence model. Non-trivial: a crash really happened and at least two snapshots had been committed",
-		ShardSize: 4,
+		Rule:      rules[mode] + ". The whole multi-session event stream goes to the Coq persistence model.",
+		ShardSize: 3,
 		Workers:   8,
 	}, gen, exec_)
 }
